@@ -20,6 +20,7 @@ func init() {
 	vpRegister("c19_obs_step", vpH_c19_obs_step)
 	vpRegister("c19_disjoint", vpH_c19_disjoint)
 	vpRegister("c19_warnings", vpH_c19_warnings)
+	vpRegister("c19_obs_extras", vpH_c19_obs_extras)
 }
 
 func vpYStr(v string) *yaml.Node { return &yaml.Node{Kind: yaml.ScalarNode, Tag: "!!str", Value: v} }
@@ -193,4 +194,60 @@ func vpH_c19_warnings() {
 	vpAssert(vpShared(e1, e2) == 0, "the warnings of two parses share no mutable memory")
 	vpAssert(vpShared(p1, p2) == 0, "the pipelines of two parses share no mutable memory")
 	vpAssert(vpCountLeaves(e1) == n1 && vpCountLeaves(e2) == 1, "a later parse does not change what an earlier one reported, and reports only its own fallbacks")
+}
+
+// Marshalling objects that carry many unknown fields (their number at and
+// around the integer constants of the marshalling code, and a dozen) writes
+// nothing: the unknown-field maps keep exactly their entries, named fields
+// stay as they are, and marshalling twice gives the same JSON.
+func vpH_c19_obs_extras() {
+	n := vpBoundarySize("*json.go,*step_command.go,*step_group.go,*pipeline.go,*step_command_matrix.go,*step_command_cache.go", 12)
+	mk := func() map[string]any {
+		m := map[string]any{}
+		for i := 0; i < n; i++ {
+			m["x"+string(rune('a'+i))] = i
+		}
+		return m
+	}
+	lbl := vpStrUpTo(1, "a-b")
+	var target any
+	var extras map[string]any
+	var named func() bool
+	switch vpInt(0, 4) {
+	case 0:
+		st := &CommandStep{Command: "c", Label: lbl, Key: "k", Env: map[string]string{"E": "v"}, RemainingFields: mk()}
+		target, extras = st, st.RemainingFields
+		named = func() bool { return st.Command == "c" && st.Label == lbl && st.Key == "k" && len(st.Env) == 1 }
+	case 1:
+		g := "g"
+		st := &GroupStep{Group: &g, Key: "k", Steps: Steps{&CommandStep{Command: "c"}}, RemainingFields: mk()}
+		target, extras = st, st.RemainingFields
+		named = func() bool { return st.Group == &g && g == "g" && st.Key == "k" && len(st.Steps) == 1 }
+	case 2:
+		st := &Matrix{Setup: MatrixSetup{"os": {lbl}}, RemainingFields: mk()}
+		target, extras = st, st.RemainingFields
+		named = func() bool { return len(st.Setup) == 1 && len(st.Setup["os"]) == 1 && st.Adjustments == nil }
+	case 3:
+		st := &Cache{Paths: []string{lbl}, Name: "n", RemainingFields: mk()}
+		target, extras = st, st.RemainingFields
+		named = func() bool { return len(st.Paths) == 1 && st.Name == "n" && st.Size == "" && !st.Disabled }
+	default:
+		st := &Pipeline{Steps: Steps{&CommandStep{Command: "c"}}, RemainingFields: mk()}
+		target, extras = st, st.RemainingFields
+		named = func() bool { return len(st.Steps) == 1 && st.Env == nil }
+	}
+	b1, e1 := json.Marshal(target)
+	vpAssert(e1 == nil, "an object with many unknown fields marshals to JSON")
+	ok := len(extras) == n
+	for i := 0; i < n; i++ {
+		if v, has := extras["x"+string(rune('a'+i))]; !has || v != any(i) {
+			ok = false
+		}
+	}
+	vpAssert(ok, "marshalling leaves the unknown-field map with exactly its entries (nothing merged into it)")
+	vpAssert(named(), "marshalling leaves the named fields as they are")
+	b2, e2 := json.Marshal(target)
+	vpAssert(e2 == nil && e1 == nil && vpJEqual(b1, b2), "marshalling twice gives the same JSON")
+	_, ye := yaml.Marshal(target)
+	vpAssert(ye == nil, "... and YAML marshalling afterwards still succeeds")
 }
